@@ -81,7 +81,9 @@ def errs(nc):
     return [i % 2 == 1 for i in range(1, nc + 1)]
 
 
-def scenario(tr, sched, nc=3, timeout=2, probenum=0, initopen=False, unit=1000, errv=None):
+def scenario(tr, sched, nc=3, timeout=2, probenum=0, initopen=False, unit=None, errv=None):
+    # one tick = 1 s, or 5 s (retry timeouts of 10 s and more: beyond 2^32 ns) for every third scenario
+    unit = unit or (5000 if tr % 3 == 0 else 1000)
     return dict(tr=tr, unit=unit, timeout=timeout, probenum=probenum, thr=1, minamt=1, initopen=initopen,
                 errs=errv if errv is not None else errs(nc), sched=sched)
 
